@@ -282,6 +282,19 @@ def run(tier, replay=None):
             report.known("C19-name-handdown: '< L < L DS < CEED > < L < ECV > < V > > > < COLCT > >' keys the unnamed inner list 'DS' (the parent's name is handed down) instead of 'DATA'")
         elif entry.get("status") == "fixed" and still:
             report.violation({"kind": "counterexample", "what": "fixed finding C19-name-handdown fails again", "case": KNOWN_WITNESS[0]}, True, tag="regress")
+    # members with equal keys: '< L < MDLN > < SOFTREV > < MDLN > >' has three members, the record is due three fields
+    dup_text = "< L < MDLN > < SOFTREV > < MDLN > >"
+    ok_, shp = observe(dup_text)
+    nfields = repr(shp).count("MDLN") + repr(shp).count("SOFTREV") if ok_ else None
+    dup = {"text": dup_text, "accepted": ok_, "shape": repr(shp)[:200]}
+    report.coverage["duplicate_keys"] = dup
+    lost = ok_ and isinstance(shp, tuple) and shp and shp[0] == "rec" and len(shp[1]) < 3
+    if lost:
+        entry = listed.get("C19-duplicate-keys")
+        if entry and entry.get("status") == "open":
+            report.known(f"C19-duplicate-keys: {entry['text']} ({dup_text} -> {repr(shp)[:120]})")
+        else:
+            report.violation({"kind": "counterexample", "what": "a list with three members was generated as a record with fewer fields (members with equal keys)", **dup}, True, tag="dupkeys")
     import hashlib
     from collections import Counter
     cov = report.coverage
